@@ -14,35 +14,11 @@ NAN = math.nan
 # ---------------------------------------------------------------------------- known findings
 def finding_key(opname, exc, tensors, args):
     """name of the known-finding predicate this failure belongs to, or None"""
-    d = [getattr(t, "default", None) for t in tensors]
-    if isinstance(exc, ZeroDivisionError):
-        if opname in ("div", "truediv", "itruediv_t") and len(d) > 1 and d[1] == 0: return "div_default_python_zero_division"
-        if opname in ("div_s", "itruediv_s", "truediv_op_s") and args and args[0] == 0: return "div_default_python_zero_division"
-    if opname == "nan_to_num_" and isinstance(exc, RuntimeError) and "without overflow" in str(exc) and tensors:
+    if opname in ("exp", "expm1") and isinstance(exc, RuntimeError) and "without overflow" in str(exc) and tensors:
         t0 = tensors[0]; d0 = getattr(t0, "default", None)
-        import torch as _torch
-        if (getattr(getattr(t0, "physical", None), "dtype", None) == _torch.float32 and isinstance(d0, float) and math.isinf(d0)
-                and ((d0 > 0 and (len(args) < 2 or args[1] is None)) or (d0 < 0 and (len(args) < 3 or args[2] is None)))):
-            return "nan_to_num_default_float64_max_in_float32"
-    if isinstance(exc, RuntimeError) and "without overflow" in str(exc):
-        # a later operation trips over a default poisoned by an earlier nan_to_num_ (float64 maximum in a float32 tensor)
-        import sys as _sys, torch as _torch
-        for t0 in tensors:
-            d0 = getattr(t0, "default", None)
-            if (getattr(getattr(t0, "physical", None), "dtype", None) == _torch.float32 and isinstance(d0, float)
-                    and abs(d0) == _sys.float_info.max):
-                return "nan_to_num_default_float64_max_in_float32"
-    if isinstance(exc, ValueError) and "math domain error" in str(exc):
-        if opname in ("log", "log_") and d and isinstance(d[0], (int, float)) and d[0] < 0: return "log_default_python_domain_error"
-        if opname == "log1p_" and d and isinstance(d[0], (int, float)) and d[0] <= -1: return "log_default_python_domain_error"
-    return None
-
-def mismatch_key(opname, tensors, args):
-    """known-finding predicate for a wrong *value* (not an exception), or None"""
-    d = [getattr(t, "default", None) for t in tensors]
-    isnan = lambda v: isinstance(v, float) and v != v
-    if opname == "relu_" and d and isnan(d[0]): return "python_max_drops_nan_default"
-    if opname == "maximum" and len(d) > 1 and isnan(d[1]) and not isnan(d[0]): return "python_max_drops_nan_default"
+        if (getattr(getattr(t0, "physical", None), "dtype", None) == torch.float32 and isinstance(d0, float)
+                and math.isfinite(d0) and 88.72 < d0 <= 709.79):
+            return "exp_default_float64_in_float32"
     return None
 
 # ---------------------------------------------------------------------------- op catalogue
@@ -171,7 +147,7 @@ OPS = [
     Op("log1p_", _clone_apply(lambda t: t.log1p_()), lambda ds, a: ds[0].log1p(), tol=1e-12, tol32=1e-5),
     Op("relu_", _clone_apply(lambda t: t.relu_()), lambda ds, a: ds[0].relu()),
     Op("abs_", _clone_apply(lambda t: t.abs_()), lambda ds, a: ds[0].abs()),
-    Op("nan_to_num_", _clone_apply(_nan2num_impl), lambda ds, a: _nan2num_ref(ds[0], *a), gen=_g_nan2num, nan_default=True),
+    Op("nan_to_num_", _clone_apply(_nan2num_impl), lambda ds, a: _nan2num_ref(ds[0], *a), gen=_g_nan2num, nan_default=True, weight=2),
     Op("to", lambda ts, a: ts[0].to(U.torch_dtype(a[0])), lambda ds, a: ds[0].to(U.torch_dtype(a[0])), gen=_g_dtype, kind=A),
     Op("logical_not", lambda ts, a: ts[0].logical_not(), lambda ds, a: ds[0].logical_not(), kind=B),
     # ---- arithmetic and comparisons with scalars
@@ -259,12 +235,26 @@ def gen_operands(op, rng, types, pats):
     nan = rng.random() < 0.12
     def deflt(k):
         if k == "bool": return None
+        if op.name in ("exp", "expm1") and rng.random() < 0.2: return rng.choice([1000.0, -1000.0, 709.0])
+        if op.name in ("log", "log_", "log1p_") and rng.random() < 0.2: return rng.choice([-1.0, -2.5, 0.0])
+        if op.name in ("relu_", "maximum") and rng.random() < 0.25: return NAN      # a NaN default must propagate
+        if op.name == "nan_to_num_" and rng.random() < 0.5: return rng.choice([INF, -INF])
         if op.nan_default and rng.random() < 0.08: return NAN
         return None
     if pats is not None and op.n == 1:
         ts, vax = pats
         spec = spec_from_pattern(ts, vax, rng, k0, deflt(k0), nan)
+        if op.name == "nan_to_num_" and rng.random() < 0.5: spec["dtype"] = "f32"
         return [spec]
+    if kind == "where" and rng.random() < 0.3:
+        # t stored on a diagonal (one physical axis shared by two dimensions), c dense and mostly True:
+        # off the diagonal the result must be t.default
+        a = rng.choice([x for x in types[1:] if U.tsize(x) <= 6])
+        t, pool = U.gen_tensor(rng, types=[a, a], kind="float", default=deflt("float"), nan=nan, p_share=1.0)
+        c, _ = U.gen_tensor(rng, types=[a, a], kind="bool", default=False, pool=U.Pool(40), p_phys=1.0, p_share=0.0)
+        c["values"] = [rng.random() < 0.8 for _ in c["values"]]
+        u, _ = U.gen_tensor(rng, types=[a, a], kind="float", dtype=t["dtype"], default=deflt("float"), pool=U.Pool(80), nan=nan)
+        return [t, c, u]
     shape_types = None
     if op.identity is not None and rng.random() < 0.5:
         # operands over sum-typed dimensions: different injections give partially overlapping supports, which is
@@ -273,6 +263,7 @@ def gen_operands(op, rng, types, pats):
         shape_types = [rng.choice(sums)] + ([rng.choice(types[1:4])] if rng.random() < 0.6 else [])
         rng.shuffle(shape_types)
     t, pool = U.gen_tensor(rng, types=shape_types, kind=k0, default=deflt(k0), nan=nan,
+                           dtype=("f32" if op.name == "nan_to_num_" and rng.random() < 0.5 else None),
                            **(dict(p_phys=0.15) if shape_types else {}))
     if op.n == 1: return [t]
     # broadcast-compatible second operand
@@ -361,16 +352,15 @@ def run_step(op, tensors, denses, args, mon):
     except Exception as ex:
         mon.active = False
         if rexc is not None: return Outcome("both_raise"), None, None
-        key = finding_key(op.name, ex, tensors, args)
         if isinstance(ex, op.may_raise) and not (len(args) > 1 and args[1] is True):
             return Outcome("allowed_raise", exc=ex), None, None
-        return Outcome("raise", detail=repr(ex), exc=ex, key=key), None, None
+        return Outcome("raise", detail=repr(ex), exc=ex, key=finding_key(op.name, ex, tensors, args)), None, None
     finally:
         mon.active = False
     if rexc is not None:
         return Outcome("ref_raise_only", detail=repr(rexc)), None, None
     if not cmp_ok:
-        return Outcome("mismatch", detail=what, key=mismatch_key(op.name, tensors, args)), res, ref
+        return Outcome("mismatch", detail=what), res, ref
     o = Outcome("ok"); o.nwarn = nwarn
     return o, res, ref
 
@@ -519,10 +509,22 @@ def special_stack(rng, mon):
     return case, (Outcome("ok") if ok else Outcome("mismatch", detail="values"))
 
 def special_project(rng, mon):
-    t, pool = U.gen_tensor(rng, kind=rng.choice(["float", "bool"]), max_numel=36)
-    # target pattern of the same dimension types; sometimes sharing t's own physical axes
-    pl = pool.copy() if rng.random() < 0.4 else U.Pool(40)
-    vax2, _ = U.gen_pattern(t["types"], rng, pl)
+    nested = rng.random() < 0.4
+    if nested:
+        # the target re-uses t's own physical axes, nested inside sum / product axes and at other positions
+        comp = [x for x in U.all_types() if x[0] != "atom" and 1 < U.tsize(x) <= 8]
+        a0 = rng.choice(comp)
+        ts = [a0, a0] if rng.random() < 0.7 else [rng.choice(comp) for _ in range(rng.choice([1, 2]))]
+        t, pool = U.gen_tensor(rng, types=ts, kind=rng.choice(["float", "bool"]), max_numel=64, p_phys=0.1)
+        if ts[0] == ts[-1] and len(ts) == 2 and rng.random() < 0.5:
+            vax2 = list(reversed(t["vaxes"]))             # the same axes, at the other position
+        else:
+            vax2, _ = U.gen_pattern(t["types"], rng, pool.copy(), p_phys=0.1, p_share=0.9)
+    else:
+        t, pool = U.gen_tensor(rng, kind=rng.choice(["float", "bool"]), max_numel=36)
+        # target pattern of the same dimension types; sometimes sharing t's own physical axes
+        pl = pool.copy() if rng.random() < 0.4 else U.Pool(40)
+        vax2, _ = U.gen_pattern(t["types"], rng, pl)
     pax2 = U.fv_list(vax2); rng.shuffle(pax2)
     if math.prod(n for _, n in pax2) > 200: return None, None
     case = dict(op="project", args=[pax2, vax2], operands=[t])
@@ -648,7 +650,7 @@ def run_ops(tier, seed, violations, cov, mon):
                 "input_mutated": "%s modified its operand" % name}.get(out.status, out.status)
         violations.append(Violation(what, case=describe(case), observed=out.detail, oracle="torch on dense_ref (denotation by definition)",
                                     corr="C06 (ii): op(t,u).to_dense() == torch op(t.to_dense(), u.to_dense())", failing_input_found=True,
-                                    call="PatternedTensor.%s" % case["op"], finding_key=out.key))
+                                    call="PatternedTensor.%s" % case["op"], finding_key=getattr(out, "key", None)))
     # per-operation cases
     per_op_exh = 14 if quick else None
     per_op_rand = 22 if quick else 400
@@ -665,7 +667,7 @@ def run_ops(tier, seed, violations, cov, mon):
             judge(case, exec_case(case, mon))
             if len(samples) < 4 and nontrivial(case) and (not samples or rng.random() < 0.02): samples.append(describe(case))
     for name, f in SPECIALS.items():
-        for _ in range(60 if quick else 800):
+        for _ in range((120 if name == "project" else 60) if quick else 800):
             try:
                 case, out = f(rng, mon)
             except Exception as ex:
